@@ -319,6 +319,8 @@ def ctx_passed_through_rule(facts, R):
                 v = bs.op(t["args"][k])
                 while v[0] == "call" and v[1].rsplit("::", 1)[-1] in ("deref", "as_ref", "borrow") and len(v[2]) == 1:
                     v = v[2][0]
+                if v[0] == "agg" and str(v[1]).endswith("Option") and v[2] == "Some" and len(v[3]) == 1:
+                    v = v[3][0][1]          # an optional-context parameter given Some(ctx)
                 ok = v[0] == "arg" and v[1] in ctx_params
                 if v[0] == "agg" and v[1] == "tuple":
                     # the argument pack of a closure call `f(ctx, value)`
